@@ -15,6 +15,6 @@ go build ./... >> $L 2>&1 && echo "BUILD ok" >> $L || echo "BUILD FAILED" >> $L
 git apply -R patch.diff || echo "REVERT FAILED" >> $L
 ( eval "$demo" ) > /tmp/wt/$id/demo_without.log 2>&1; echo "DEMO without change rc=$?" >> $L
 git apply patch.diff || echo "REAPPLY FAILED" >> $L
-go test -json -vet=off -count=1 -timeout 60m -skip 'Seeded' "$@" > /tmp/wt/$id/tests.json 2>/tmp/wt/$id/tests.err
+go test -json -vet=off -count=1 -timeout 40m -skip "Seeded|TestTimingTTSize|TestWACTests|TestCrafty|TestECM|TestNullMove|TestSTS|TestArasan|TestFranky|TestEndGame|TestStressTests" "$@" > /tmp/wt/$id/tests.json 2>/tmp/wt/$id/tests.err
 python3 /verif/tools/baseline_cmp.py /tmp/wt/$id/tests.json >> $L 2>&1
 echo DONE >> $L
